@@ -55,7 +55,7 @@ def render(tree, n, sigs, templates=False, alg='sha256'):
             base = sb.signature_template(_IDMAP.get('x', 'x'), alg).replace('<ds:DigestValue/>', '<ds:DigestValue>AAAAAAAAAAAAAAAAAAAAAAAAAAA=</ds:DigestValue>') \
                 .replace('<ds:SignatureValue/>', '<ds:SignatureValue>QUJDREVGR0hJSktMTU5PUFFSU1RVVldYWVo=</ds:SignatureValue>')
         elif templates:
-            base = sb.signature_template('a' if nd['orig'] == 'A' else 'r', alg)
+            base = sb.signature_template('a' if nd['orig'] == 'A' else 'r', alg, xpath=_XPATH[0] if nd['orig'] == 'A' else None)
         else:
             base = sigs[nd['orig']]
         return base[:-len('</ds:Signature>')] + inner + '</ds:Signature>'
@@ -70,10 +70,24 @@ def render(tree, n, sigs, templates=False, alg='sha256'):
     raise fw.Machinery('unknown kind %r' % k)
 
 
+# T8: the filter a filtering issuer signs with -- everything but what SigDoc.tla calls the assertion's content
+FILTER = 'not(ancestor-or-self::saml:Subject or ancestor-or-self::saml:AttributeStatement)'
+_XPATH = [None]
+
+
 def genuine(level, alg='sha256'):
     """the genuine document of that level, really signed; returns the verbatim signature elements"""
     if (level, alg) in _GEN:
         return _GEN[(level, alg)]
+    if level == 'assertion_filtered':
+        _XPATH[0] = FILTER
+        try:
+            doc, sigs = genuine('assertion', alg + '+filtered')
+        finally:
+            _XPATH[0] = None
+        _GEN[(level, alg)] = (doc, sigs)
+        return _GEN[(level, alg)]
+    alg = alg.split('+')[0]
     tree = {1: {'kind': 'Resp', 'id': 'r', 'content': 'genuine', 'kids': [2] if level == 'assertion' else [4, 2]},
             2: {'kind': 'Asrt', 'id': 'a', 'content': 'genuine', 'kids': [] if level == 'response' else [3]},
             3: {'kind': 'Sig', 'orig': 'A', 'kids': []}, 4: {'kind': 'Sig', 'orig': 'R', 'kids': []}}
@@ -90,8 +104,8 @@ def genuine(level, alg='sha256'):
         sigs['R'] = found[0]
     else:
         sigs['R'], sigs['A'] = found[0], found[1]
-    _GEN[(level, alg)] = (doc, sigs)
-    return _GEN[(level, alg)]
+    _GEN[(level, alg + ('+filtered' if _XPATH[0] else ''))] = (doc, sigs)
+    return doc, sigs
 
 
 def _wrap_top_assertion(doc, index=0):
@@ -170,7 +184,8 @@ def shape(case):
 def main():
     chk = fw.Check('C01', 'model_checking')
     thorough = chk.tier == 'thorough'
-    runs = [('assertion', 3), ('response', 3), ('both', 3)] if thorough else [('assertion', 2), ('response', 2), ('both', 2)]
+    runs = [('assertion', 3), ('response', 3), ('both', 3), ('assertion_filtered', 3)] if thorough else \
+        [('assertion', 2), ('response', 2), ('both', 2), ('assertion_filtered', 2)]
     cases = []
     for level, k in runs:
         cfg = 'SigDoc_%s_k%d.cfg' % (level, k)
@@ -197,6 +212,10 @@ def main():
     chk.add_tlc(pinned, 'SigDoc_pinned.cfg (design as pinned: expected counterexample)')
     if pinned.violated != 'Contract':
         raise fw.Machinery('vacuity control failed: the pinned design should violate the contract')
+    pinned = tlc.run('SigDoc.tla', 'SigDoc_filtered_pinned.cfg', timeout=600, coverage=False)
+    chk.add_tlc(pinned, 'SigDoc_filtered_pinned.cfg (no transform whitelist: expected counterexample)')
+    if pinned.violated != 'Contract':
+        raise fw.Machinery('vacuity control failed: without the transform whitelist a filtering signature should violate the contract')
 
     # every RSA-SHA algorithm in turn; assertion-level documents with one or two top-level assertions also with one of them encrypted
     algs = sorted(sb.SIGALG)
